@@ -111,7 +111,7 @@ func verifC09(corrupt bool) {
 	cfg := vStoreCfg{nickNullable: true, fk: vFkIndexNullable, fkToDept: true, links: true}
 	env := verifNewEnv(cfg)
 	defer env.close()
-	env.createDepts("x", "y")
+	env.createDepts(vDeptIds...)
 	sp := &vSpecFk{deptIds: vDeptIds, dept: []bool{true, true}, emp: make([]bool, 2), boss: []int{-1, -1}, nullable: true}
 	names := make([]string, 2)
 	nicks := make([]*string, 2)
